@@ -22,5 +22,7 @@ Bps2 == {{}, {6}}
 BpsPush == {{5}}
 BpsSelf == {{}, {2}}
 NoDev == {}
-ImplDev == {"PauseRace"}
+ImplDev == {"PauseRace", "StepOutReadsTopOfStack"}
+RaceDev == {"PauseRace"}
+StepOutDev == {"StepOutReadsTopOfStack"}
 ================================================================================
